@@ -25,11 +25,15 @@ var (
 	vOutcomes = 2
 	// a token used as an iterator yields at most this many items
 	vMaxItems = 3
+	// whether iterators also end with StopIteration instances / ExceptionInfo
+	vStopForms    = false
+	vStopInstance = py.ExceptionNewf(py.StopIteration, "done")
 )
 
 func (t *VTok) Type() *py.Type { return vTokType }
 
 func VReset(outcomes int) {
+	vStopForms = false
 	vLog = nil
 	vNext = 100
 	vOutcomes = outcomes
@@ -165,6 +169,22 @@ func (t *VTok) M__next__() (py.Object, error) {
 	n := 3
 	if t.nexts >= vMaxItems {
 		n = 2 // bounded producer: only exhaustion or failure remain
+	}
+	if vStopForms {
+		// 3: StopIteration raised as an instance, 4: as an ExceptionInfo (what a Python-level raise produces)
+		k := verifChoice("next"+strconv.Itoa(len(vLog)), n+2)
+		switch {
+		case k == 0:
+			return nil, py.StopIteration
+		case k == 1:
+			return nil, vErr
+		case k == n:
+			return nil, vStopInstance
+		case k == n+1:
+			return nil, py.ExceptionInfo{Type: py.StopIteration, Value: vStopInstance}
+		}
+		t.nexts++
+		return vFresh(), nil
 	}
 	switch verifChoice("next"+strconv.Itoa(len(vLog)), n) {
 	case 0:
